@@ -15,6 +15,26 @@ claimed = {
    note="Bounded histories (see evidence.bounds); memdb stands for bbolt+bdb; tokenised SHA-256 for tx hashes; counterexamples are replayed natively against the real build before being reported.",
    technique="SSA symbolic execution + SMT (z3) bounded model checking with a ledger-model oracle",
    design="5 C01"),
+ "C02": dict(
+   text="Same symbolic execution of the real store code as C01. (a) a ledger model that encodes the statement's disconnect/confirm rules is compared with TxDetails, the unmined set, balance and UTXO set after every event; (b) at the end of every history a second store is built directly from the final facts (confirmed transactions block by block, then unconfirmed ones) and both stores must report the same balance (SMT-decided for all amounts/minConf/syncHeight), spendable outputs and details.",
+   note="Bounded histories over fixed small universes (evidence.bounds). memdb for bbolt; tokenised tx hashes.",
+   technique="SSA symbolic execution + SMT bounded model checking, two-execution comparison against direct reconstruction",
+   design="5 C02"),
+ "C13": dict(
+   text="After every event of every bounded history: TxDetails and UniqueTxDetails for every transaction and every candidate block, UnminedTxHashes, UnminedTxs order, and RangeTransactions over SYMBOLIC begin/end (both directions, -1) are compared with the ledger: each known tx exactly once at its current status, credits with amount/change/spent flag, debits with amounts, removed txs absent. The solver decides the range boundary cases.",
+   note="Bounded histories; memdb; tokenised hashes. Labels and PreviousPkScripts not asserted.",
+   technique="SSA symbolic execution + SMT bounded model checking with ledger oracle",
+   design="5 C13"),
+ "C12": dict(
+   text="Symbolic execution of LockOutput/UnlockOutput/DeleteExpiredLockedOutputs/ListLockedOutputs/isLockedOutput together with Balance/UnspentOutputs/OutputsToWatch/insertMinedTx/Rollback under a symbolic non-decreasing clock (seconds and nanoseconds): the solver sits on the expiry instant. A lease model (id, persisted expiry) is the oracle after every event; two ids, four durations, restart included.",
+   note="Bounded histories (2 events quick, 3 thorough). Expiry = persisted whole seconds. Clock constant within one operation.",
+   technique="SSA symbolic execution + SMT bounded model checking, symbolic clock",
+   design="5 C12"),
+ "C10": dict(
+   text="Fault injection with a SYMBOLIC fault position: in every store operation from every state reached by the bounded histories, the k-th mutating database call fails (k decided by the solver per path). Asserted: error reported or database equal to a fault-free twin; after rollback database dump and all observations equal the pre-operation ones; retry gives the fault-free result. Transaction-store operations only.",
+   note="Transaction store only (address-manager part of C10 not built). memdb write-failure model; single fault per operation.",
+   technique="SSA symbolic execution + SMT, symbolic fault position, twin-execution comparison",
+   design="5 C10"),
 }
 
 not_applicable = {
